@@ -21,4 +21,6 @@ ASSUMPTIONS = common.ASSUMPTIONS_E1 + [
 
 
 def gen_case(seed, tier, index=0):
+    if index % 4 == 3:
+        return wf.gen_case_observer_race(seed, tier, index)
     return wf.gen_case_dag(seed, tier, index)
